@@ -349,20 +349,20 @@ func (op Element[T]) WriteTo(w io.Writer) (n int64, err error) {
 		if op.MetaData != nil {
 
 			if inc, err = buffer.WriteUint8(w, 1); err != nil {
-				return n, err
+				return n + inc, err
 			}
 
 			n += inc
 
 			if inc, err = op.MetaData.WriteTo(w); err != nil {
-				return n, err
+				return n + inc, err
 			}
 
 			n += inc
 
 		} else {
 			if inc, err = buffer.WriteUint8(w, 0); err != nil {
-				return n, err
+				return n + inc, err
 			}
 
 			n += inc
@@ -402,7 +402,7 @@ func (op *Element[T]) ReadFrom(r io.Reader) (n int64, err error) {
 		var hasMetaData uint8
 
 		if inc, err = buffer.ReadUint8(r, &hasMetaData); err != nil {
-			return n, err
+			return n + inc, err
 		}
 
 		n += inc
@@ -414,7 +414,7 @@ func (op *Element[T]) ReadFrom(r io.Reader) (n int64, err error) {
 			}
 
 			if inc, err = op.MetaData.ReadFrom(r); err != nil {
-				return n, err
+				return n + inc, err
 			}
 
 			n += inc
